@@ -87,6 +87,15 @@ def run_case(case, acc, order):
                                     else 'value', {'unit': int(t), 'spikes': ids},
                                     describe(exp) if exp is not None else None, describe(got)))
                         break
+            # a first, smaller export with another unit factor: the second export must replace it
+            try:
+                orig = np.random.choice
+                np.random.choice = lambda a, size=None, replace=True, p=None: np.asarray(a)[:size]
+                m.save_spikes_subset_waveforms(max_n_spikes_per_template=1, sample2unit=7.0)
+            except Exception:
+                pass
+            finally:
+                np.random.choice = orig
             for factor in case['factors']:
                 try:
                     m.save_spikes_subset_waveforms(max_n_spikes_per_template=10, sample2unit=factor)
